@@ -92,6 +92,20 @@ def Union(*ts) -> Ty:
     return Ty("Union", tuple(out))
 
 
+def UnionOf(members, merged: bool = False) -> Ty:
+    """Union keeping the written member order (flattened, structurally de-duplicated). merged=True only changes the
+    SPELLING: consecutive literal members (and None) are written as one `Literal[a, b, ...]`."""
+    u = Union(*members)
+    if merged and u.kind == "Union":
+        return Ty("Union", u.args, "merged")
+    return u
+
+
+def Gen(cls, *ts) -> Ty:
+    """User-defined generic class `cls` (one of vp.prelude's G* classes) specialised with ts."""
+    return Ty("Gen", tuple(ts), cls)
+
+
 def List(t): return Ty("List", (t,))
 def Set(t): return Ty("Set", (t,))
 def FrozenSet(t): return Ty("FrozenSet", (t,))
@@ -382,7 +396,35 @@ def member(o, t: Ty) -> Optional[bool]:
         return _type_of(o, t.args[0])
     if k == "Callable":
         return False if not callable(o) else None
+    if k == "Gen":
+        views = GEN_VIEWS.get(t.extra)
+        if views is None or len(views) != len(t.args):
+            return None
+        if not isinstance(o, t.extra):
+            return False
+        return and3(member(e, a) for view, a in zip(views, t.args) for e in view(o))
     raise ValueError(f"unknown Ty kind {k}")
+
+
+# User-defined generic classes of the prelude: for each class, one "view" per OWN type parameter giving the
+# sub-objects of an instance that are declared with that parameter.  o in G[X1..Xn]  iff  isinstance(o, G) and
+# every object of view_i(o) is in X_i.  (For a base class the views are the base's own attributes, which the
+# subclass constructors fill exactly as their `class Sub(Base[...])` header declares.)
+GEN_VIEWS = {
+    prelude.GPair: (lambda o: [o.first], lambda o: [o.second]),
+    prelude.GSame: (lambda o: [o.first], lambda o: [o.second]),
+    prelude.GFlip: (lambda o: [o.a], lambda o: [o.b]),
+    prelude.GFlipFresh: (lambda o: [o.a], lambda o: [o.b]),
+    prelude.GFlipSub: (lambda o: [o.p], lambda o: [o.q]),
+    prelude.GShift: (lambda o: [o.a], lambda o: [o.b]),
+    prelude.GShiftFresh: (lambda o: [o.a], lambda o: [o.b]),
+    prelude.GIntFirst: (lambda o: [o.a],),
+    prelude.GDup: (lambda o: [o.a],),
+    prelude.GBox: (lambda o: [o.item],),
+    prelude.GListBox: (lambda o: [o.a],),
+    prelude.GRevDict: (lambda o: list(o.values()), lambda o: list(o.keys())),
+    prelude.GList: (lambda o: list(o),),
+}
 
 
 def _type_of(cls, inner: Ty) -> Optional[bool]:
@@ -453,12 +495,33 @@ def lit_source(v) -> str:
     return repr(v)
 
 
+_BARE_TYPING_NAMES = {list: "List", dict: "Dict", set: "Set", frozenset: "FrozenSet", tuple: "Tuple", type: "Type"}
+
+
 def render(t: Ty, style: int = 0) -> str:
-    """style 0: builtin generics + `|`-free Union spelling; style 1: typing.* spellings."""
+    """style 0: builtin generics + `|`-free Union spelling; style 1: typing.* spellings; style 2: as style 1 and
+    un-parameterised generic classes are spelled with their typing alias too (`Tuple` for `tuple`)."""
     k = t.kind
-    r = lambda x: render(x, style)  # noqa: E731
+    r = lambda x, _style=style: render(x, _style)  # noqa: E731
+    if k == "Cls" and style == 2 and t.extra in _BARE_TYPING_NAMES:
+        return _BARE_TYPING_NAMES[t.extra]
+    style = 1 if style else 0
     if k == "Any":
         return "Any"
+    if k == "Gen":
+        return f"{cls_name(t.extra)}[{', '.join(r(a) for a in t.args)}]"
+    if k == "Union" and t.extra == "merged":
+        parts, run = [], []
+        for a in [*t.args, None]:
+            if a is not None and a.kind in ("Lit", "NoneT"):
+                run.append("None" if a.kind == "NoneT" else lit_source(a.extra.v))
+                continue
+            if run:
+                parts.append(f"Literal[{', '.join(run)}]")
+                run = []
+            if a is not None:
+                parts.append(r(a))
+        return parts[0] if len(parts) == 1 else "Union[" + ", ".join(parts) + "]"
     if k == "Never":
         return "typing.NoReturn"
     if k == "Object":
@@ -490,7 +553,7 @@ def render(t: Ty, style: int = 0) -> str:
         return f"{('tuple', 'Tuple')[style]}[{r(t.args[0])}, ...]"
     if k == "MixTuple":
         prefix, star, suffix = t.args
-        mid = f"Unpack[Tuple[{r(star)}, ...]]" if style == 1 else f"*tuple[{r(star)}, ...]"
+        mid = f"Unpack[Tuple[{r(star)}, ...]]" if style else f"*tuple[{r(star)}, ...]"
         parts = [r(a) for a in prefix] + [mid] + [r(a) for a in suffix]
         return f"{('tuple', 'Tuple')[style]}[{', '.join(parts)}]"
     if k == "TypedDict":
